@@ -2,6 +2,7 @@ package props
 
 import (
 	"bytes"
+	"compress/gzip"
 	"fmt"
 	"os"
 	"os/exec"
@@ -123,7 +124,93 @@ func c03Adversarial() [][]byte {
 		}
 		add(sb.String())
 	}
+	// streams that begin like something else (compressed files, archives,
+	// other encodings): they are not GEDCOM and are refused like any other junk
+	{
+		valid := "0 HEAD\n1 CHAR UTF-8\n0 @I1@ INDI\n1 NAME A /B/\n0 TRLR\n"
+		var gz bytes.Buffer
+		zw := gzip.NewWriter(&gz)
+		zw.Write([]byte(valid))
+		zw.Close()
+		add(gz.String())
+		add(gz.String()[:gz.Len()/2])
+		add("\x1f\x8b")
+		add("\x1f\x8b\x08\x00 not really\n0 HEAD\n")
+		add("\x1f\x8b" + valid)
+		add("PK\x03\x04" + valid)
+		add("BZh91AY&SY" + valid)
+		add("\xfd7zXZ\x00" + valid)
+		add("\xff\xfe0\x00 \x00H\x00E\x00A\x00D\x00\n\x00")
+		add("\xfe\xff\x000\x00 \x00H\x00E\x00A\x00D\x00\n")
+		add("\x00\x00\xfe\xff" + valid)
+		add("\x00" + valid)
+		add("<?xml version=\"1.0\"?>\n<gedcom/>\n")
+		add("{\"gedcom\": true}\n")
+	}
 	return out
+}
+
+// c03EntryPoints: the same bytes through the other ways into the decoder (a
+// file on disk, a string). Each of them must keep the contract (a document, or
+// an error naming the line, or the documented panic) and reach the outcome the
+// decoder reaches with its default options.
+func c03EntryPoints(c *fw.Ctx, data []byte, kind string) {
+	class := func(doc *gedcom.Document, err error, pi *fw.PanicInfo, parked string) (string, string) {
+		switch {
+		case parked != "":
+			return "does-not-return", clip(parked, 1500)
+		case pi != nil && strings.HasPrefix(pi.Msg, "indent is too large"):
+			return "documented-indent-panic", ""
+		case pi != nil:
+			return "panic:" + pi.Sig(), pi.Msg
+		case err != nil && doc != nil:
+			return "error-and-document", err.Error()
+		case err != nil && c03LineErr.MatchString(err.Error()):
+			return "rejected-with-line-error", ""
+		case err != nil:
+			return "error-without-line", err.Error()
+		case doc == nil:
+			return "nil-nil", ""
+		}
+		return "accepted", ""
+	}
+	run := func(f func() (*gedcom.Document, error)) (string, string) {
+		var doc *gedcom.Document
+		var err error
+		pi, parked := fw.Guard(func() { doc, err = f() })
+		return class(doc, err, pi, parked)
+	}
+	want, _ := run(func() (*gedcom.Document, error) { return gedcom.NewDecoder(bytes.NewReader(data)).Decode() })
+	dir := os.Getenv("VERIF_SCRATCH")
+	if dir == "" {
+		dir = os.TempDir()
+	}
+	c03CLISeq++
+	path := filepath.Join(dir, fmt.Sprintf("c03-entry-%d-%d.ged", os.Getpid(), c03CLISeq))
+	if err := os.WriteFile(path, data, 0o644); err != nil {
+		c.HarnessError("cannot write scratch file: " + err.Error())
+		return
+	}
+	defer os.Remove(path)
+	for _, ep := range []struct {
+		name string
+		f    func() (*gedcom.Document, error)
+	}{
+		{"NewDocumentFromGEDCOMFile", func() (*gedcom.Document, error) { return gedcom.NewDocumentFromGEDCOMFile(path) }},
+		{"NewDocumentFromString", func() (*gedcom.Document, error) { return gedcom.NewDocumentFromString(string(data)) }},
+	} {
+		c.Count("entry-point-decodes", 1)
+		got, detail := run(ep.f)
+		payload := map[string]interface{}{"bytes": clip(string(data), 4000), "entry_point": ep.name, "kind": kind}
+		switch got {
+		case "accepted", "rejected-with-line-error", "documented-indent-panic":
+			if got != want && (want == "accepted" || want == "rejected-with-line-error" || want == "documented-indent-panic") {
+				c.Violation("entry-point-differs:"+ep.name+":"+got+"-vs-"+want, fmt.Sprintf("%s: %s, but Decoder.Decode with default options: %s\ninput (%d bytes): %q", ep.name, got, want, len(data), clip(string(data), 300)), payload)
+			}
+		default:
+			c.Violation("entry-point:"+ep.name+":"+got, fmt.Sprintf("%s: %s %s\ninput (%d bytes): %q", ep.name, got, detail, len(data), clip(string(data), 300)), payload)
+		}
+	}
 }
 
 const c03PerCase = 50
@@ -306,6 +393,7 @@ func c03Run(c *fw.Ctx, i int) {
 	adv := c03Adversarial()
 	if i < len(adv) {
 		c03One(c, adv[i], "adversarial")
+		c03EntryPoints(c, adv[i], "adversarial")
 		c03CLI(c, adv[i], "adversarial")
 		return
 	}
@@ -315,6 +403,9 @@ func c03Run(c *fw.Ctx, i int) {
 		for k := 0; k < c03PerCase; k++ {
 			data := c03RandomBytes(r)
 			c03One(c, data, "random-bytes")
+			if k%10 == 0 {
+				c03EntryPoints(c, data, "random-bytes")
+			}
 			if k%25 == 0 {
 				c03CLI(c, data, "random-bytes")
 			}
@@ -331,6 +422,9 @@ func c03Run(c *fw.Ctx, i int) {
 			data = gen.Mutate(r, data)
 		}
 		c03One(c, data, "mutated-file")
+		if k%10 == 0 {
+			c03EntryPoints(c, data, "mutated-file")
+		}
 		if k%25 == 0 {
 			c03CLI(c, data, "mutated-file")
 		}
